@@ -32,7 +32,9 @@ RULE = ("op lines come from one seeded PRNG: GF(256) products exhaustively; Sham
 TRUSTED = ["unicodedata.normalize (NFKD) and the word-list files: word <-> index is an opaque bijection, checked "
            "exhaustively each run, not proved",
            "PBKDF2 / HMAC / SHA-2 instances of the model are validated against hashlib each run, not verified",
-           "SLIP39 PBKDF2 is run in the model for iteration exponent 0 only (quick and thorough)",
+           "SLIP39 PBKDF2: the model runs iteration exponents 0..2 (streams feistel/master/generate); exponents 0..5, "
+           "the library defaults (e = 1, extendable) and the flag are checked against hashlib.pbkdf2_hmac with an "
+           "independently written iteration count (oracle slip39.kdf); exponents above 5 are not exercised",
            "BIP85: the BIP32 child derivation is btclib's own (property C07); only the HMAC step is modelled"]
 ASSUMPTIONS = ["probability claims (a wrong passphrase gives a *different* secret) are tested, not proved"]
 
@@ -246,15 +248,13 @@ def _i_dispatch_all(lang, slip, el, nwords, known, idx, sentence):
     return f"ok {b or '-'} {','.join(al) or '-'} {dispatch.seed_type_from_mnemonic(m, lang) or '-'}"
 
 
-def _i_generate(secret, pw, ident, ext, e, gt, groups, ems, group_rp, *rest):
+def _i_generate(secret, pw, id_bytes, ext, e, gt, groups, group_rp, *rest):
     secret, pw = unhx(secret), unhx(pw).decode()
-    ident, ext, e, gt = int(ident), ext == "1", int(e), int(gt)
+    ext, e, gt = ext == "1", int(e), int(gt)
     gl = unnats(groups)
     grp = [(gl[i], gl[i + 1]) for i in range(0, len(gl) - 1, 2)]
-    if slip39._feistel(secret, pw, e, ident, ext, decrypt=False) != unhx(ems):
-        return "bad-line"
     n_group_rnd = len(rest) - len(grp)
-    queue = [ident.to_bytes(2, "big")]
+    queue = [unhx(id_bytes)]
     if gt >= 2:
         queue += [unhx(x) for x in rest[:n_group_rnd]] + [unhx(group_rp)]
     for (mt, _mc), tok in zip(grp, rest[n_group_rnd:]):
@@ -267,7 +267,8 @@ def _i_generate(secret, pw, ident, ext, e, gt, groups, ems, group_rp, *rest):
 
 
 def generate_line(rng, secret, pw, ext, e, gt, grp):
-    """run the real generator once with a recording source; the line replays its transcript."""
+    """run the real generator once with a recording source; the line replays its transcript (the model encrypts,
+    splits and encodes on its own: nothing of btclib's output is in the line)."""
     src = Source(rng)
     try:
         slip39.mnemonics_from_master_secret(secret, grp, gt, pw, e, ext, src)
@@ -276,7 +277,6 @@ def generate_line(rng, secret, pw, ext, e, gt, grp):
     log = list(src.log)
     if not log:
         log = [common.rand_bytes(rng, 2)]
-    ident = int.from_bytes(log[0], "big") & 0x7FFF
     pos = 1
 
     def take(k):
@@ -295,9 +295,8 @@ def generate_line(rng, secret, pw, ext, e, gt, grp):
             rnd = take(mt - 2)
             rp = (take(1) or [b""])[0]
         toks.append(hx(rp) + "|" + ",".join(hx(r) for r in rnd))
-    ems = slip39._feistel(secret, pw, e, ident, ext, decrypt=False)
-    return (f"slip39.generate {hx(secret)} {hx(pw.encode())} {ident} {1 if ext else 0} {e} {gt} "
-            f"{nats(x for g in grp for x in g)} {hx(ems)} {hx(group_rp)}" +
+    return (f"slip39.generate {hx(secret)} {hx(pw.encode())} {hx(log[0])} {1 if ext else 0} {e} {gt} "
+            f"{nats(x for g in grp for x in g)} {hx(group_rp)}" +
             "".join(" " + hx(r) for r in group_rnd) + "".join(" " + t for t in toks))
 
 
@@ -347,7 +346,7 @@ def _seeded_source(seed):
 def make_set(w):
     """witness -> (secret, groups of mnemonics).  w: secret(hex) groups [[t,n]..] gt pw ext seed"""
     return slip39.mnemonics_from_master_secret(
-        bytes.fromhex(w["secret"]), [tuple(g) for g in w["groups"]], w["gt"], w["pw"], 0, w["ext"],
+        bytes.fromhex(w["secret"]), [tuple(g) for g in w["groups"]], w["gt"], w["pw"], w.get("e", 0), w["ext"],
         _seeded_source(w["seed"]))
 
 
@@ -507,6 +506,49 @@ def _o_slip39_set(w):
     return True, f"{len(w['sels'])} selections of {w['groups']}/{w['gt']}"
 
 
+def ref_feistel(payload: bytes, pw: str, e: int, ident: int, ext: bool, decrypt: bool) -> bytes:
+    """SLIP-0039's encryption written from the SLIP text with hashlib alone: 4 rounds, 10000·2^e PBKDF2-HMAC-SHA256
+    iterations IN TOTAL (so a quarter per round), salt "shamir" ‖ identifier unless the backup is extendable."""
+    salt = b"" if ext else b"shamir" + ident.to_bytes(2, "big")
+    iterations = (10000 * 2 ** e) // 4
+    half = len(payload) // 2
+    left, right = payload[:half], payload[half:]
+    for i in (range(3, -1, -1) if decrypt else range(4)):
+        f = hashlib.pbkdf2_hmac("sha256", bytes([i]) + pw.encode("ascii"), salt + right, iterations, len(right))
+        left, right = right, bytes(a ^ b for a, b in zip(left, f))
+    return right + left
+
+
+def _o_slip39_kdf(w):
+    """iteration exponent and extendable flag against an independent hashlib computation."""
+    secret, pw, e, ext, ident = bytes.fromhex(w["secret"]), w["pw"], w["e"], w["ext"], w["id"]
+    want = ref_feistel(secret, pw, e, ident, ext, False)
+    got = slip39._feistel(secret, pw, e, ident, ext, decrypt=False)
+    if got != want:
+        return False, f"_feistel(e={e}, extendable={ext}, id={ident}) is not 4 x PBKDF2({(10000 << e) // 4} iterations)"
+    if slip39._feistel(want, pw, e, ident, ext, decrypt=True) != secret:
+        return False, f"_feistel does not decrypt the reference ciphertext (e={e}, extendable={ext})"
+    # the public generator: a 1-of-1 share carries e, the flag, and the reference ciphertext of its own identifier
+    (m,), = slip39.mnemonics_from_master_secret(secret, [(1, 1)], 1, pw, e, ext, _seeded_source(w["seed"]))
+    sh = slip39.share_from_mnemonic(m)
+    if sh.iteration_exponent != e or sh.extendable != ext:
+        return False, f"share header says e={sh.iteration_exponent}, extendable={sh.extendable}; asked {e}, {ext}"
+    if sh.value != ref_feistel(secret, pw, e, sh.identifier, ext, False):
+        return False, f"1-of-1 share value is not the reference encryption (e={e}, extendable={ext})"
+    # the public recovery on a share made from the reference ciphertext alone
+    made = slip39.mnemonic_from_share(slip39.Share(ident, ext, e, 0, 1, 1, 0, 1, want))
+    back = slip39.master_secret_from_mnemonics([made], pw)
+    if back != secret:
+        return False, f"reference share (e={e}, extendable={ext}) recovers {back.hex()} instead of {secret.hex()}"
+    if w.get("defaults"):
+        (m,), = slip39.mnemonics_from_master_secret(secret, passphrase=pw, entropy_source=_seeded_source(w["seed"]))
+        sh = slip39.share_from_mnemonic(m)
+        if (sh.iteration_exponent, sh.extendable) != (1, True) or \
+                sh.value != ref_feistel(secret, pw, 1, sh.identifier, True, False):
+            return False, "default parameters are not iteration exponent 1 / extendable, or the value differs"
+    return True, f"e={e} extendable={ext}"
+
+
 def _o_slip39_substitution(w):
     idx = list(w["idx"])
     m = _slip_words(idx)
@@ -599,7 +641,7 @@ def _guarded(name, fn):
     return run
 
 
-ORACLES = {"dispatch.lang": _o_dispatch, "wordlist.bijection": _o_wordlist, "bip39.roundtrip": _o_bip39_roundtrip,
+ORACLES = {"slip39.kdf": _o_slip39_kdf, "dispatch.lang": _o_dispatch, "wordlist.bijection": _o_wordlist, "bip39.roundtrip": _o_bip39_roundtrip,
            "bip39.substitution": _o_bip39_substitution, "electrum.roundtrip": _o_electrum_roundtrip,
            "slip39.set": _o_slip39_set, "slip39.substitution": _o_slip39_substitution,
            "slip39.codec": _o_slip39_codec, "bip85.hmac": _o_bip85}
@@ -799,9 +841,18 @@ def run(ctx):
     for _ in range(ctx.n(8, 60)):
         pw = "".join(chr(rng.randrange(32, 127)) for _ in range(rng.randrange(0, 12)))
         n = rng.choice([16, 16, 18, 32, 2, 0]) if rng.random() < 0.9 else rng.choice([1, 17])
-        lines.append(f"slip39.feistel {rng.randrange(2)} {hx(pw.encode())} 0 {rng.getrandbits(15)} "
+        e = [0, 1, 2, 1][len(lines) % 4]
+        lines.append(f"slip39.feistel {rng.randrange(2)} {hx(pw.encode())} {e} {rng.getrandbits(15)} "
                      f"{rng.randrange(2)} {hx(common.rand_bytes(rng, n))}")
+        ctx.count("slip39.iteration_exponent", f"feistel:{e}")
     ctx.stream("slip39.feistel", lines)
+    for j in range(ctx.n(12, 60)):
+        e = j % 4 if j < 8 else rng.randrange(0, 4 if not thorough else 6)
+        ctx.check("slip39.kdf", {"secret": common.rand_bytes(rng, rng.choice(ALL_SIZES)).hex(),
+                                 "pw": "".join(chr(rng.randrange(32, 127)) for _ in range(rng.randrange(0, 10))),
+                                 "e": e, "ext": bool(j % 2), "id": rng.getrandbits(15), "seed": rng.getrandbits(32),
+                                 "defaults": j == 0})
+        ctx.count("slip39.iteration_exponent", f"kdf:{e}")
 
     # --- whole SLIP39: oracle on many selections, model on a few ---------------------------------------
     master_lines = []
@@ -812,7 +863,8 @@ def run(ctx):
             groups, gt = [[2, 3], [3, 5], [1, 1]], 2
         pw = "".join(chr(rng.randrange(32, 127)) for _ in range(rng.randrange(0, 9)))
         w = {"secret": common.rand_bytes(rng, rng.choice([16, 32])).hex(), "groups": groups, "gt": gt, "pw": pw,
-             "ext": bool(rng.randrange(2)), "seed": rng.getrandbits(32)}
+             "ext": bool(rng.randrange(2)), "seed": rng.getrandbits(32), "e": si % 3}
+        ctx.count("slip39.iteration_exponent", f"set:{si % 3}")
         sels = all_subsets(w, rng, 512 if not thorough else 4096) or []
         sels += selections(rng, w, 4)
         w["sels"] = [[list(x) for x in s] for s in sels]
@@ -833,7 +885,7 @@ def run(ctx):
     for n in ALL_SIZES:
         for groups, gt in (([[1, 1]], 1), ([[2, 3]], 1)):
             w = {"secret": common.rand_bytes(rng, n).hex(), "groups": groups, "gt": gt, "pw": "pw",
-                 "ext": bool(rng.randrange(2)), "seed": rng.getrandbits(32)}
+                 "ext": bool(rng.randrange(2)), "seed": rng.getrandbits(32), "e": (n // 2) % 3}
             sels = all_subsets(w, rng, 64)
             w["sels"] = [[list(x) for x in s_] for s_ in sels]
             ctx.check("slip39.set", w)
@@ -845,11 +897,15 @@ def run(ctx):
                         nats(_slip_idx(sets[0][m])) for m in rng.sample(range(3), 2)))
                 except BTClibValueError:
                     pass          # reported by the oracle above with the concrete witness
+    if master_lines:
+        tail = master_lines[0].split(" ", 2)[2]
+        for bad in ("pässword", "tab\there", "\x7f"):
+            master_lines.append(f"slip39.master {hx(bad.encode())} {tail}")
     ctx.stream("slip39.master", master_lines)
 
     # --- mnemonics_from_master_secret: entropy transcript replayed through the two-level split of the model ----
     lines = []
-    for j in range(ctx.n(25)):
+    for j in range(ctx.n(16, 120)):
         groups, gt = rand_config(rng, 4, 6)
         if j % 5 == 4:
             k = rng.randrange(4)
@@ -863,8 +919,17 @@ def run(ctx):
                 groups = [[1, 1]] * 17
         secret = common.rand_bytes(rng, ALL_SIZES[j % len(ALL_SIZES)])
         pw = "".join(chr(rng.randrange(32, 127)) for _ in range(rng.randrange(0, 6)))
-        lines.append(generate_line(rng, secret, pw, bool(rng.randrange(2)), rng.randrange(0, 2), gt,
-                                   [tuple(g) for g in groups]))
+        e = rng.choice([0, 1, 1, 2])
+        if j % 8 == 7:
+            k = rng.randrange(3)
+            if k == 0:
+                pw = rng.choice(["pässword", "\x1f", "\x7f"])
+            elif k == 1:
+                secret = common.rand_bytes(rng, rng.choice([14, 15, 17, 33]))
+            else:
+                e = 16
+        ctx.count("slip39.iteration_exponent", f"generate:{e}")
+        lines.append(generate_line(rng, secret, pw, bool(rng.randrange(2)), e, gt, [tuple(g) for g in groups]))
     ctx.stream("slip39.generate", lines)
 
     # --- entropy.py digit conversions ---------------------------------------------------------------------
